@@ -123,7 +123,7 @@ def doRecover (r : Option PanicVal) (repanicOutOfGas : Bool) : Handling :=
 /-- how the handling of a submitted program can end -/
 inductive Ending
   | success | validationError | gnoPanic | outOfGas | allocLimit   -- the statement's allowed endings
-  | internalFault | processDeath | hang | memGrowth                -- the excluded ones
+  | internalFault | processDeath | resourceBlowup                  -- the excluded ones (hang / growth past the cap)
   deriving DecidableEq, Repr, Inhabited
 
 def Ending.allowed : Ending → Bool
@@ -140,8 +140,7 @@ def Ending.ofToken : String → Option Ending
   | "crash:vm-panic" => some .internalFault
   | "crash:runtime-error" => some .internalFault
   | "crash:fatal" => some .processDeath
-  | "crash:hang" => some .hang
-  | "crash:mem-growth" => some .memGrowth
+  | "crash:resource" => some .resourceBlowup
   | _ => none
 
 /-- what the GnoVM was observed to do with the pinned witness of known finding
@@ -155,6 +154,6 @@ def fallShrinkObserved : Ending := .internalFault
 with a 40M gas limit): the live Go heap of the process grows past twice the
 500 MB allocation cap (quadratically in the gas: 48 MB at 3M gas, 229 MB at
 10M, 1.8 GB at 30M, 7 GB at 60M) while the allocator tracks almost nothing -/
-def deferPanicRecursionObserved : Ending := .memGrowth
+def deferPanicRecursionObserved : Ending := .resourceBlowup
 
 end GnoVerif.C11
